@@ -260,9 +260,14 @@ def outer_checks(ctx, make, label, ops, payload, state_ok):
                     ctx.hit('outer.inner_read_first')
                 for what, rep, getter, inner_get in (('state', srep, lambda: outer.state, lambda: inner.state),
                                                      ('observation', orep, lambda: outer.observation, lambda: inner.observation)):
+                    g_before = env_rng_state(inner)
                     ok, got = call_real(getter)
                     if rep is None:
                         ctx.hit('outer.no_representation')
+                        if env_rng_state(inner) != g_before:
+                            ctx.violation('outer', f'outer.refused_{what}_read_consumes_randomness',
+                                          f'{label}: reading OuterEnv.{what} without a representation is refused, yet it moved the '
+                                          f'environment\'s generator (an observation was computed on the side)', 'outer_case', payload)
                         if ok or not isinstance(got, RuntimeError):
                             ctx.violation('outer', f'outer.{what}_without_representation',
                                           f'{label}: OuterEnv.{what} without a representation -> {got!r} instead of RuntimeError',
